@@ -50,10 +50,12 @@ pub fn configs(ctx: &Ctx) -> Vec<WCfg> {
         (70, vec![3, 67, 2, 66, 1, 65, 0, 64]),
         (40, vec![0, 32, 1, 33, 4, 36, 7, 39]),
         (300, vec![0, 256, 1, 257, 128, 255, 44, 299]),
+        (100, vec![0, 1, 45, 89, 90, 91, 98, 99]),
+        (1001, vec![5, 90, 100, 500, 777, 998, 999, 1000]),
     ];
     for (w, l) in sets {
         for reversed in [false, true] {
-            if reversed && w == 300 && ctx.tier == Tier::Quick {
+            if reversed && w >= 300 && ctx.tier == Tier::Quick {
                 continue;
             }
             v.push(WCfg { width: w, labels: l.clone(), reversed });
@@ -248,8 +250,8 @@ fn counts_cfg(cfg: &WCfg) -> Report {
             }
         }
     }
-    // SDD on the right-linear vtree over all labels of the manager (label order or reversed)
-    {
+    // SDD on the right-linear vtree over all labels of the manager (label order or reversed; managers of at most 300)
+    if cfg.width <= 300 {
         let labs: Vec<VarLabel> = (0..cfg.width).map(|x| VarLabel::new(if cfg.reversed { cfg.width - 1 - x } else { x } as u64)).collect();
         rsdd::verif::set_table_capacity(4);
         let b = CompressionSddBuilder::new(VTree::right_linear(&labs));
